@@ -428,7 +428,7 @@ var decShapes = []string{
 	"{<<: {a: b}, c: d}", "{<<: [a]}", "!!binary aGk=", "!!str 5", "!!int x", "\"a\\nb\"", "\"{{.X}}\"", "\"{{\"", "\"{{.X | nosuchfunc}}\"", "\"{{template \\\"x\\\"}}\"",
 	"{? [a, b] : c}", ".inf", ".nan", "2024-01-01", "0x10", "0o7", "|\n      multi\n      line", ">-\n      folded", "{task: x}", "{cmd: echo, task: x}",
 	"{for: {var: X}, cmd: echo}", "{for: [a, b], task: '{{.ITEM}}'}", "{for: {matrix: {}}, cmd: x}", "{for: {matrix: {A: 1}}, cmd: x}", "{for: {matrix: {A: {ref: .N}}}, cmd: x}",
-	"{for: sources, cmd: x}", "{for: {var: X, split: ''}, cmd: x}", "{defer: }", "{defer: {task: }}", "{defer: [a]}", "{name: A, enum: []}", "{name: , enum: [a]}",
+	"{for: sources, cmd: x}", "{for: {var: X, matrix: {}}, cmd: x}", "{for: {var: X, matrix: }, cmd: x}", "{for: {var: X, matrix: {A: }}, cmd: x}", "{for: {var: X, split: ''}, cmd: x}", "{defer: }", "{defer: {task: }}", "{defer: [a]}", "{name: A, enum: []}", "{name: , enum: [a]}",
 	"{sh: 'false', msg: 5}", "windows/amd64", "/", "linux/", "a/b/c", "{os: x}", "{taskfile: ./inc.yml}", "{taskfile: }", "{taskfile: ./inc.yml, vars: {A: {}}}",
 	"{taskfile: ./inc.yml, aliases: x}", "{taskfile: ./inc.yml, excludes: [default]}", "{taskfile: ./inc.yml, excludes: [it, default], aliases: [y]}",
 	"{taskfile: ./inc.yml, flatten: true, excludes: [default]}", "{taskfile: ./inc.yml, internal: true, dir: ./nowhere}", "[default]", "[it]", "{taskfile: ./inc.yml, excludes: {a: b}}", "{taskfile: ./inc.yml, flatten: yes, optional: 3}", "{taskfile: ./missing.yml, optional: true}",
@@ -584,6 +584,7 @@ func runDecode(c *Ctx) {
 	emit(decodeCase{Kind: "corpus", Doc: hx("version: '3'\ntasks:\n  t:\n    requires: {vars: [A, ~]}\n    cmds: [echo]\n"), Note: "nil requires entry (crashed when the task was run)"})
 	emit(decodeCase{Kind: "corpus", Doc: hx("version: '3'\ntasks:\n  t:\n    platforms: [~]\n    cmds: [echo]\n  u:\n    cmds:\n      - cmd: echo\n        platforms: [~]\n"), Note: "nil platform entry at task and command level (crashed when the task was run)"})
 	emit(decodeCase{Kind: "corpus", Doc: hx("version: '3'\ntasks:\n  t:\n    vars: {X: {sh: 'test ! -e flag && touch flag && echo {{now.UnixNano}}'}}\n    cmds: [{defer: 'echo d2'}, {defer: 'echo d1'}, 'echo body']\n"), Note: "sh: variable that succeeds when the task is compiled and fails when runDeferred evaluates the variables again (its text changes, so the cache does not hold it): crashed with a nil variable set"})
+	emit(decodeCase{Kind: "corpus", Doc: hx("version: '3'\nvars: {X: [a, b]}\ntasks:\n  t:\n    cmds:\n      - for: {var: X, matrix: {}}\n        cmd: echo {{.ITEM}}\n"), Note: "for with a variable AND an empty matrix: the matrix's map stays nil (crashed in deepcopy.OrderedMap)"})
 	emit(decodeCase{Kind: "corpus", Doc: hx("version: '3'\nvars:\n  A: 2024-01-01\ntasks: {t: {cmds: ['echo {{.A}}']}}\n"), Note: "timestamp variable"})
 	emit(decodeCase{Kind: "corpus", Doc: hx("version: '3'\ntasks: {build: {cmds: [echo]}}\n"), Req: strings.Repeat("a", 2500), Note: "very long unknown task name (did-you-mean lookup is cubic in the length)"})
 	emit(decodeCase{Kind: "corpus", Doc: hx("version: '3'\ntasks: {build: {aliases: [b], cmds: [echo]}}\n"), Req: strings.Repeat("build", 400), Note: "very long unknown task name made of a known one"})
